@@ -25,15 +25,17 @@ theorem isStructOrUnpacked_ref {env : Env} {name : Bytes} (h : aliasOf env name 
 
 /-- **round trip, registered struct types** (any fuel at least the budget). -/
 theorem roundtrip_struct_fuel (env : Env) (hE : envOK env) (name : Bytes) (v : Val) (d : Nat)
-    (hwf : wf env d (.ref name) v = true) (hd : d ≤ env.length + 4) (bz : Bytes)
+    (hwf : wf env d (.ref name) v = true) (hd : d ≤ env.length + 4) (hd64 : d ≤ maxAnyDepth) (bz : Bytes)
     (hm : marshal env name v = .ok bz) (hlen : bz.length < 2 ^ 64)
     (k : Nat) (hk : sumFields env + 2 + budget env bz.length ≤ k) :
     unmarshalF k env name bz = some v := by
-  rcases wf_cases hwf with ⟨hpv, hprim⟩ | ⟨vs, rfl⟩ | ⟨es, rfl⟩
+  rcases wf_cases hwf with ⟨hpv, hprim⟩ | ⟨vs, rfl⟩ | ⟨es, rfl⟩ | ⟨_, _, h⟩ | ⟨_, _, _, _, h⟩
   · cases v <;> simp [isPrimVal] at hpv <;> simp [primOK] at hprim
   rotate_left
   · obtain ⟨_, _, htd, _⟩ := wf_list_inv hwf
     cases htd
+  · cases h
+  · cases h
   obtain ⟨name', n, ifs, fs, rs, d', htd, hfind, rfl, hwfs⟩ := wf_struct_inv hwf
   cases htd
   have ha := aliasOf_struct hfind
@@ -57,17 +59,17 @@ theorem roundtrip_struct_fuel (env : Env) (hE : envOK env) (name : Bytes) (v : V
       simp only [hfind, ctdOf, isStructOrUnpacked_ref ha, Bool.not_true, Bool.and_false, Bool.false_eq_true, if_false,
         List.drop_zero]
       rw [dec_ref env k' name n ifs fs rs _ 1 true false 0 hfind]
-      have := rt_fields env hE vs d' fs buf k' 0 0 [] 0 hwfs (by omega) hs hbuf hlen (by omega)
+      have := rt_fields env hE vs d' fs buf k' 0 0 [] 0 hwfs ⟨by omega, by omega⟩ hs hbuf hlen (by omega)
       simp [decMaybeBare, this]
 
 /-- **round trip, registered struct types**: `UnmarshalReflect(MarshalReflect(v)) = v`
 for every value of the fragment, with the decoder's own fuel. -/
 theorem roundtrip_struct (env : Env) (hE : envOK env) (name : Bytes) (v : Val) (d : Nat)
-    (hwf : wf env d (.ref name) v = true) (hd : d ≤ env.length + 4) (bz : Bytes)
+    (hwf : wf env d (.ref name) v = true) (hd : d ≤ env.length + 4) (hd64 : d ≤ maxAnyDepth) (bz : Bytes)
     (hm : marshal env name v = .ok bz) (hlen : bz.length < 2 ^ 64) :
     unmarshal env name bz = some v := by
   unfold unmarshal
-  apply roundtrip_struct_fuel env hE name v d hwf hd bz hm hlen
+  apply roundtrip_struct_fuel env hE name v d hwf hd hd64 bz hm hlen
   have := fuelFor_ge env bz (sumFields env) (Nat.le_refl _)
   omega
 
